@@ -339,7 +339,8 @@ def rule_I12(ctx):
             okc, detc = False, f"the returned list is also kept on the table (`{norm(kept[0])[:60]}`): every caller shares one list object"
     ctx.ob("I12", gp, "get_path returns a list of its own making and keeps no reference to it", okc, "" if okc else detc, inst="get_path-fresh")
     # (d) nobody changes, in place, a list another method handed back
-    hits = _foreign_list_mutations(ctx.prog.all_functions())
+    pkg_names = {f_.name for _m, _q, f_ in ctx.prog.all_functions()}
+    hits = _foreign_list_mutations(ctx.prog.all_functions(), pkg_names)
     ctx.ob("I12", hits[0][2] if hits else gp, "a list returned by another method is not changed in place (del / item assignment / append ... on it)", not hits,
            "" if not hits else f"{hits[0][0]}: `{hits[0][1]}`", inst="no-foreign-mutation")
     # positive control: the rule recognises the shape it forbids
@@ -348,14 +349,16 @@ def rule_I12(ctx):
         for ch_ in ast.iter_child_nodes(n_):
             ch_._parent = n_
     cfn = ctl.body[0].body[0]
-    if not _foreign_list_mutations([(None, "T.f", cfn)]):
+    if not _foreign_list_mutations([(None, "T.f", cfn)], {"get_path"}):
         raise AnalysisError("I12", "positive-control", "in-place change of a returned list is not recognised")
 
 
 _MUTATORS = ("append", "extend", "insert", "pop", "remove", "clear", "sort", "reverse")
 
 
-def _foreign_list_mutations(functions):
+def _foreign_list_mutations(functions, pkg_names):
+    """in-place changes of a local whose value is what a method of the package returned (a builtin container method such as
+    dict.setdefault / dict.fromkeys hands out the caller's own object and is not meant)"""
     out = []
     for m, q, fn in functions:
         defs = {}
@@ -373,7 +376,8 @@ def _foreign_list_mutations(functions):
             if nm is None or nm not in defs:
                 continue
             for v in defs[nm]:
-                if isinstance(v, ast.Call) and isinstance(v.func, ast.Attribute) and v.func.attr not in ("copy", "deepcopy", "tolist", "split", "splitlines", "readlines", "keys", "values", "items") \
+                if isinstance(v, ast.Call) and isinstance(v.func, ast.Attribute) and v.func.attr in pkg_names \
+                        and v.func.attr not in ("copy", "deepcopy", "tolist", "split", "splitlines", "readlines", "keys", "values", "items", "get", "setdefault", "fromkeys") \
                         and not (isinstance(v.func.value, ast.Name) and v.func.value.id in ("np", "numpy", "copy", "re")) \
                         and isinstance(v.func.value, (ast.Name, ast.Attribute)):
                     out.append((q, norm(x)[:80], x))
